@@ -138,7 +138,8 @@ def make_range_jobs(plan_item, prop, tier, base_seed, repo, scratch, tag_prefix)
             "step": W, "budget_s": plan_item["budget_s"],
             "hard_timeout": plan_item["budget_s"] + plan_item.get("grace_s", 240),
             "out": os.path.join(scratch, f"{tag}.json"), "n_samples": 2,
-            "per_run": plan_item.get("per_run", False), "params": plan_item.get("params", {}),
+            "per_run": plan_item.get("per_run", False), "per_run_upto": plan_item.get("per_run_upto", 0),
+            "offset0": plan_item.get("offset", 0), "params": plan_item.get("params", {}),
             "plan_name": plan_item["name"],
         }
         env = env_for(plan_item["mode"], plan_item.get("hook_limit"), scratch, tag,
